@@ -89,6 +89,21 @@ def env_expr(sig):
     return '[' + ', '.join(items) + ']'
 
 
+def shared_decorator(fn, coro):
+    """Every decorated handler gets a wrapper made from the SAME source (one code object for all of them), as handlers
+    behind a common functools.wraps decorator do."""
+    import functools
+    if coro:
+        @functools.wraps(fn)
+        async def wrapper(*a, **k):
+            return await fn(*a, **k)
+    else:
+        @functools.wraps(fn)
+        def wrapper(*a, **k):
+            return fn(*a, **k)
+    return wrapper
+
+
 def make_callable(m, is_async, log):
     """Returns (callable_or_viewclass, is_view)."""
     sig = m['sig']
@@ -151,6 +166,8 @@ def make_callable(m, is_async, log):
     src = '%s %s(%s):\n' % (kw, fname, params) + '\n'.join(lines) + '\n'
     exec(src, ns)
     f = ns[fname]
+    if m.get('deco') and not wrapped:
+        f = shared_decorator(f, coro)
     if wrapped:
         import functools
 
@@ -161,6 +178,15 @@ def make_callable(m, is_async, log):
             return wrapper
         f = deco(f)
     return f, False, fname
+
+
+class TracedResponse(Response):
+    """A user-defined response class: same message, one extra member on the wire."""
+
+    def to_json(self):
+        d = super().to_json()
+        d['x-trace'] = 'T'
+        return d
 
 
 def make_mw(i, d, is_async, log):
@@ -230,6 +256,24 @@ def make_eh(key, i, d, is_async, log):
     return eh
 
 
+# non-default configurations every dispatcher corpus is also run under (the model is the same: none of them changes behaviour)
+VARIANTS = [{'encoder': 'sub'}, {'resp_cls': 'sub'}, {'eh_late': True}, {'deco': True}, {'seq': True}]
+
+
+def with_variants(cases, every, key=None):
+    """Adds, for every `every`-th case, a copy under one of the VARIANTS (round robin).  key(case, variant) -> new case."""
+    out = list(cases)
+    k = 0
+    for i, c in enumerate(cases):
+        if i % every == 0:
+            v = VARIANTS[k % len(VARIANTS)]
+            k += 1
+            if v.get('seq') and not c.get('async'):
+                continue
+            out.append(key(c, v) if key else dict(c, variant=v))
+    return out
+
+
 def build(cfg, is_async, log, **extra):
     cls = AsyncDispatcher if is_async else Dispatcher
     mws = [make_mw(i, d, is_async, log) for i, d in enumerate(cfg.get('mws', []))]
@@ -242,14 +286,27 @@ def build(cfg, is_async, log, **extra):
     mw_arg = {'list': lambda: mws, 'tuple': lambda: tuple(mws), 'iter': lambda: iter(mws), 'gen': lambda: (m for m in mws)}[how]()
     if is_async and cfg.get('seq'):
         extra = dict(extra, concurrent_batch=False)       # batch elements one after the other
+    if cfg.get('encoder') == 'sub':
+        # the documented way to write a custom encoder: derive from pjrpc.server.JSONEncoder
+        import pjrpc.server as _srv
+        extra = dict(extra, json_encoder=type('HarnessEncoder', (_srv.JSONEncoder,), {}))
+    if cfg.get('resp_cls') == 'sub':
+        # a custom response class whose wire form carries one more member (removed again by canon_doc)
+        extra = dict(extra, response_class=TracedResponse)
+    late = None
+    if cfg.get('eh_late'):
+        # the application keeps the (still empty) table it handed over and registers the handlers afterwards
+        late, ehs = ehs, {}
     disp = cls(middlewares=mw_arg, error_handlers=ehs, max_batch_size=cfg.get('max_batch'), **extra)
+    if late is not None:
+        ehs.update(late)
     shared = {}
     for m in cfg['methods']:
         if m.get('share') and m['share'] in shared:
             # the SAME function object registered a second time (under another name / context designation)
             f, is_view, fname = shared[m['share']]
         else:
-            f, is_view, fname = make_callable(m, is_async, log)
+            f, is_view, fname = make_callable(dict(m, deco=True) if cfg.get('deco') else m, is_async, log)
             if m.get('share'):
                 shared[m['share']] = (f, is_view, fname)
         c = m['ctx']
@@ -306,6 +363,8 @@ def canon_doc(doc, cfg=None):
         return any(type(d) is type(u) and d == u for u in user)
 
     def fix(r):
+        if isinstance(r, dict) and r.get('x-trace') == 'T':
+            r = {k: v for k, v in r.items() if k != 'x-trace'}
         if isinstance(r, dict) and isinstance(r.get('error'), dict):
             e = r['error']
             d = e.get('data')
